@@ -88,9 +88,15 @@ def hygiene():
 
 
 def ensure_makefile():
+    """_CoqProject is generated: every .v under coq/ is part of the development."""
     mk = os.path.join(COQ, "Makefile")
     cp = os.path.join(COQ, "_CoqProject")
-    if not os.path.exists(mk) or os.path.getmtime(mk) < os.path.getmtime(cp):
+    files = sorted(os.path.relpath(p, COQ) for p in coq_sources())
+    text = ("-Q . LzVerif\n-arg -w -arg -notation-overridden,-deprecated-hint-without-locality,"
+            "-deprecated-instance-without-locality\n" + "\n".join(files) + "\n")
+    old = open(cp).read() if os.path.exists(cp) else ""
+    if old != text or not os.path.exists(mk):
+        open(cp, "w").write(text)
         sh("coq_makefile -f _CoqProject -o Makefile", cwd=COQ, timeout=120)
 
 
@@ -154,13 +160,17 @@ def build_driver():
     """Extraction + ocamlopt; skipped when the binary is newer than every model/driver source."""
     srcs = [p for p in coq_sources() if "/Properties/" not in p and not p.endswith("Proofs.v")]
     srcs.append(os.path.join(VERIF, "driver"))
+    srcs.append(os.path.join(COQ, "Extract"))
     if os.path.exists(DRIVER) and os.path.getmtime(DRIVER) >= newest_mtime(srcs):
         return True, "up to date"
     # extraction needs the .vo of everything Extract.v imports
-    ex = strip_comments(open(os.path.join(COQ, "Extract", "Extract.v")).read())
-    mods = []
-    for m in re.finditer(r"From\s+LzVerif\s+Require\s+Import\s+([^.]*(?:\.[A-Za-z_][\w.]*)*)\s*\.\s", ex):
-        mods += m.group(1).split()
+    mods = ["Base.Bytes"]
+    exdir = os.path.join(COQ, "Extract")
+    for f in sorted(os.listdir(exdir)):
+        if f.endswith(".ext"):
+            for l in open(os.path.join(exdir, f)):
+                if l.startswith("Require:"):
+                    mods += l.split()[1:]
     ok, out = coq_build(" ".join(x.replace(".", "/") + ".vo" for x in mods))
     if not ok:
         return False, out
